@@ -99,6 +99,9 @@ add("mw_rd", ["C06", "C05", "C01"], "q", progs=[P("R", mwt(1, dl=1), "RU"), P("L
 add("mw_cancel", ["C05", "C06"], "q", progs=[P("L", mwt(1, cn=True), "U"), P("N")], NV=1, conds=C1)
 # a reader-mode conditional wait ended by cancellation while other readers come and go
 add("mw_cancel_rd", ["C01", "C02", "C05", "C06"], "q", progs=[P("R", mwt(1, cn=True), "RU"), P("N"), P("R", "RU", "R", "RU")], NV=1, conds=C1)
+# a reader-mode conditional waiter that takes its read lock while a woken reader (the designated waker) has not run yet, and a writer that
+# queues behind it: the waiter's release as last reader must wake the writer although a designated waker existed when it queued itself (6.10)
+add("mw_rd_dw", ["C06", "C02"], "t", progs=[P("L", "U", "L", "U"), P("R", "RU"), P("R", mwt(1), "RU")], NV=1, conds=C1)
 add("mw_ww", ["C06"], "q", progs=[P("L", mwt(1), "U"), P("L", "UW", "L", "set11", "U")], NV=1, conds=C1)
 add("mw_2same", ["C06"], "t", progs=[P("L", mwt(1), "U"), P("L", mwt(1), "U"), P("L", "set11", "U")], NV=1, conds=CS)
 add("mw_2eq", ["C06"], "t", progs=[P("L", mwt(1), "U"), P("R", mwt(2), "RU"), P("L", "set11", "U")], NV=1, conds=CS)
@@ -131,6 +134,7 @@ RANDOM = {
             dict(progs=[P("R", cvw(dl=1), "RU"), P("R", "S", "RU", "R", "RU"), P("L", "U", "R", "RU"), P("R", "RU", "L", "B", "U")], NV=1),
             dict(progs=[P("L", mwt(1, dl=1), "U"), P("R", mwt(1, dl=1), "RU"), P("L", "set11", "U"), P("R", "RU", "T")], NV=1, conds=C1)],
     "C02": [dict(progs=[P("L", "U", "L", "U"), P("R", "RU", "R", "RU"), P("L", "U", "T"), P("R", "RU", "RT"), P("T", "L", "U")], NV=1),
+            dict(progs=[P("L", "U", "L", "U"), P("R", "RU"), P("R", mwt(1), "RU")], NV=1, conds=C1, _runs=80000),
             # lockers on a mutex that is also used through the generic cv interface (6.8: the designated-waker hint left set)
             dict(progs=[P("L", cvw(), "U", "L", "U"), P("G1", "L", cvw(x=9), "U"), P("G2", "L", "B", "U"), P("G2", "L", "U", "R", "RU")], NV=1),
             dict(progs=[P("L", "U"), P("R", "RU"), P("R", "RU"), P("L", "U", "L", "U"), P("RT", "R", "RU")], NV=1)],
@@ -148,6 +152,8 @@ RANDOM = {
     "C05": [dict(progs=[P("L", cvl(v=1, dl=1, cn=True), "U"), P("R", mwt(1, dl=2, cn=True), "RU"), P("N"), P("L", "set11", "S", "U")], NV=1, conds=C1),
             dict(progs=[P("L", mwt(1), "U"), P("L", mwt(1, dl=1), "U"), P("L", "set11", "U"), P("L", "U")], NV=1, conds=C1)],
     "C06": [dict(progs=[P("L", mwt(1), "U"), P("G1", "R", "RU"), P("G1", "L", "U", "L", "set11", "U")], NV=1, conds=C1),
+            # 6.10 (configuration mw_rd_dw, breadth-first in the thorough tier: 1.7 million states): 1 schedule in 20 000 reaches it
+            dict(progs=[P("L", "U", "L", "U"), P("R", "RU"), P("R", mwt(1), "RU")], NV=1, conds=C1, _runs=80000),
             dict(progs=[P("L", mwt(1), "U"), P("G1", "R", "RU"), P("G1", "R", "RU", "L", "set11", "U"), P("G1", "L", "U")], NV=1, conds=C1),
             dict(progs=[P("L", mwt(1), "U"), P("G1", "L", mwt(3), "U"), P("G2", "L", mwt(4), "U"), P("G3", "L", "set21", "U")], NV=2, conds=CS),
             dict(progs=[P("L", mwt(3), "U"), P("G1", "L", mwt(1), "U"), P("G2", "R", mwt(4), "RU"), P("G3", "L", "set11", "U")], NV=2, conds=CS),
